@@ -492,8 +492,10 @@ class World:
         salt = c.get("salt", 0)
         args = {}
         try:
+            srcbuf = None
             if c.get("from_bytes") is not None:
-                r = self.reader_mod.EoReader(bytes(c["from_bytes"]))
+                srcbuf = bytearray(c["from_bytes"])           # a buffer the caller owns (a receive buffer is reused)
+                r = self.reader_mod.EoReader(srcbuf)
                 obj = cls.deserialize(r)
             else:
                 tag = c["obj"]["_t"]
@@ -578,7 +580,12 @@ class World:
                 elif a["op"] == "other":
                     # another instance of the same class comes into being; whether that succeeds is not this property's business
                     try:
-                        if a["how"] == "construct":
+                        if a["how"] == "clobber_source":
+                            if srcbuf is not None:
+                                for k_ in range(len(srcbuf)):
+                                    srcbuf[k_] ^= 0x5A
+                                srcbuf.extend(b"\x01\x02")
+                        elif a["how"] == "construct":
                             if c.get("from_bytes") is None:
                                 a2 = {}
                                 self._collect(self.code_of(c["obj"]["_t"]), c["obj"], a2, salt)
